@@ -16,6 +16,7 @@ import (
 	"net"
 	"strconv"
 	"sync"
+	"sync/atomic"
 	"testing"
 	"testing/synctest"
 	"time"
@@ -43,6 +44,27 @@ func (a srvAddr) String() string  { return string(a) }
 func pipeFor(name string) (srv net.Conn, peer net.Conn) {
 	a, b := net.Pipe()
 	return &mem.AddrConn{Conn: a, Local: srvAddr("server"), Remote: srvAddr(name)}, b
+}
+
+// hsConn is a connection whose (DTLS) handshake takes `delay`; dtls/server runs HandshakeContext before it sets the
+// connection up.
+type hsConn struct {
+	net.Conn
+	delay time.Duration
+	done  atomic.Bool
+}
+
+func (c *hsConn) HandshakeContext(ctx context.Context) error {
+	if c.done.Load() { // a completed handshake is not repeated
+		return nil
+	}
+	defer c.done.Store(true)
+	select {
+	case <-time.After(c.delay):
+		return nil
+	case <-ctx.Done():
+		return ctx.Err()
+	}
 }
 
 // dgramPeer collects the datagrams a dtls/server session writes into its pipe (one Write = one datagram).
@@ -351,9 +373,19 @@ func runSrvDTLS(t *testing.T, c caseDef, useDefault bool) []string {
 		for _, name := range []string{"main", "silent", "talkative"} {
 			sc, pc := pipeFor(name)
 			peers = append(peers, newDgramPeer(pc))
+			if name == "main" {
+				// the observed peer's handshake takes longer than a whole period (a slow key look-up, a lossy link): the
+				// connection exists - and its idle time starts - when the handshake is over
+				sc = &hsConn{Conn: sc, delay: c.period + 1}
+			}
 			l.Push(sc)
 			synctest.Wait()
+			if name == "main" {
+				time.Sleep(c.period + 1)
+				synctest.Wait()
+			}
 		}
+		start = time.Now() // t0 of the history: the connections are established now
 		defer func() {
 			s.Stop()
 			for _, p := range peers {
